@@ -163,3 +163,320 @@ Proof. reflexivity. Qed.
 Theorem uses_without_when_keeps_conditions_partial : forall s, set_when None s = s.
 Proof. reflexivity. Qed.
 Print Assumptions uses_without_when_keeps_conditions_partial.
+
+(** ** Every expand output satisfies [ewf_list] (round 2, Schemac/Ewf.v).
+    No well-formedness of the SOURCE is needed: addDataDefinition's conflict check and the
+    implied-case wrapping establish the invariant for every statement list, lexical context and
+    fuel.  The only hypothesis is that the accumulator the call starts from is well formed
+    ([[]] at every entry point) — and not even that for the members the call ADDS. *)
+From YV Require Import Schemac.Ewf.
+
+Theorem expand_ewf : forall fuel cx acc ss out,
+  ewf_list false [] acc = true -> expand fuel cx acc ss = Ok out -> ewf_list false [] out = true.
+Proof. exact expand_ewf_proof. Qed.
+Print Assumptions expand_ewf.
+
+Theorem expand_added_ewf : forall fuel cx acc ss X,
+  expand fuel cx acc ss = Ok (acc ++ X) -> ewf_list false (names acc) X = true.
+Proof. exact expand_added_ewf_proof. Qed.
+Print Assumptions expand_added_ewf.
+
+(** the general (relative) form: the first [n] members of the accumulator are not assumed well
+    formed; under a choice ([a = true]) the statements are cases (what [wrap_case] delivers) *)
+Theorem expand_ewf_relative : forall fuel cx ss acc n a out,
+  (negb a || forallb is_case_stmt ss) = true ->
+  ewf_from n a [] acc = true -> expand fuel cx acc ss = Ok out -> ewf_from n a [] out = true.
+Proof. exact expand_rec_ewf. Qed.
+Print Assumptions expand_ewf_relative.
+
+Theorem expand_modset_ewf : forall fuel ms t,
+  expand_modset fuel ms = Ok t -> ewf_list false [] t = true.
+Proof. exact expand_modset_ewf_proof. Qed.
+Print Assumptions expand_modset_ewf.
+
+(** uses_inline restated without the well-formedness side condition *)
+Theorem uses_inline_unconditional : forall f cx acc pfx g w refs augs rest X,
+  expand (S f) cx acc [SUses pfx g w refs augs] = Ok (acc ++ X) ->
+  ldepth X <= f ->
+  expand (S f) cx acc (SUses pfx g w refs augs :: rest) =
+  expand (S f) cx acc (map embed X ++ rest).
+Proof. exact uses_inline_unconditional_proof. Qed.
+Print Assumptions uses_inline_unconditional.
+
+Example uses_inline_unconditional_applies :
+  expand 5 ex_cx [] [ex_uses] = Ok ([] ++ ex_X) /\ ldepth ex_X <= 4 /\
+  expand 5 ex_cx [] (map embed ex_X ++ [SNode KLeaf [x7a] no_props [] [] []]) =
+  Ok (ex_X ++ [ENode KLeaf [x7a] no_props [] []]).
+Proof. repeat split; try (vm_compute; reflexivity). vm_compute. auto with arith. Qed.
+
+Example expand_ewf_applies :
+  ewf_list false [] [ENode KLeaf [x7a] no_props [] []] = true /\
+  expand 5 ex_cx [ENode KLeaf [x7a] no_props [] []] [ex_uses] =
+  Ok ([ENode KLeaf [x7a] no_props [] []] ++ ex_X).
+Proof. split; vm_compute; reflexivity. Qed.
+
+(** ** Every compile output satisfies [ewf_list] too (config inheritance, the sort of [canon] and
+    the accessor view [norm] keep the invariant) *)
+From Coq Require Import Permutation.
+From YV Require Import Schemac.CasePerm.
+
+Theorem compile_modset_ewf : forall fuel ms t,
+  compile_modset fuel ms = Ok t -> ewf_list false [] t = true.
+Proof. exact compile_modset_ewf_proof. Qed.
+Print Assumptions compile_modset_ewf.
+
+(** ** compile_deterministic.  The Go code keeps the cases of a choice in a map; the model keeps
+    textual order and sorts in [canon].  [msrel ms ms'] (Schemac/CasePerm.v): the two module sets
+    are equal up to permuting the members of ANY of their choices (at any depth, in data
+    definitions, groupings, augments, submodules and imported modules; [sperm] is the statement
+    level relation, reflexive and symmetric).  A successful compilation does not depend on that
+    order; the whole outcome is the same as soon as neither side runs out of fuel.
+
+    The full statement (equal outcomes for every fuel) is false of the model for an artificial
+    reason: with too little fuel the first failing case decides between [Err] and [OutOfFuel]
+    ([compile_deterministic_full_refuted]). *)
+Theorem compile_deterministic_partial : forall fuel ms ms' t, msrel ms ms' ->
+  (compile_modset fuel ms = Ok t <-> compile_modset fuel ms' = Ok t).
+Proof. exact compile_deterministic_iff_proof. Qed.
+Print Assumptions compile_deterministic_partial.
+
+Theorem compile_deterministic_fueled : forall fuel ms ms', msrel ms ms' ->
+  compile_modset fuel ms <> OutOfFuel -> compile_modset fuel ms' <> OutOfFuel ->
+  compile_modset fuel ms' = compile_modset fuel ms.
+Proof. exact compile_deterministic_fueled_proof. Qed.
+Print Assumptions compile_deterministic_fueled.
+
+(** the relation contains what the task asks for: the cases of one choice permuted *)
+Theorem sperm_permutes_cases : forall n p keys grps kids kids', Permutation kids kids' ->
+  sperm (SNode KChoice n p keys grps kids) (SNode KChoice n p keys grps kids').
+Proof. exact sperm_choice_perm. Qed.
+
+Theorem sperm_reflexive : forall s, sperm s s.            Proof. exact sperm_refl. Qed.
+Theorem sperm_symmetric : forall s s', sperm s s' -> sperm s' s.  Proof. exact sperm_sym. Qed.
+Theorem msrel_symmetric : forall ms ms', msrel ms ms' -> msrel ms' ms.  Proof. exact msrel_sym. Qed.
+
+(** the expansion stage alone: related sources in related contexts give trees equal up to the
+    order of choice members ([lrel false] = pointwise [eperm]) *)
+Theorem expand_case_order : forall f cx cx' ss ss' acc acc' out,
+  crel cx cx' -> Forall2 sperm ss ss' -> Forall2 eperm acc acc' ->
+  ewf_list false [] acc = true -> expand f cx acc ss = Ok out ->
+  exists out', expand f cx' acc' ss' = Ok out' /\ Forall2 eperm out out'.
+Proof.
+  intros f cx cx' ss ss' acc acc' out Hc Hs Ha Hw H.
+  destruct (expand_rel f cx cx' Hc ss ss' acc acc' false out Hs (proj2 (lrel_false _ _) Ha)
+              eq_refl Hw H) as [out' [E R]].
+  exists out'. split; auto. now apply lrel_false.
+Qed.
+Print Assumptions expand_case_order.
+
+(** satisfiable, non-trivially: module m { grouping g { choice c { case y { leaf q; } leaf x; } }
+      container t { uses g { refine c/y/q { config false; } } }  choice z { leaf b; leaf a; } }
+    against the same text with the members of both choices swapped *)
+Definition lf (n : text) : stmt := SNode KLeaf n no_props [] [] [].
+Definition dcy : stmt := SNode KCase [x79] no_props [] [] [lf [x71]].
+Definition dms (gk zk : list stmt) : modset :=
+  mkModset (mkModule [x6d] [x6d]
+    [SGrouping [x67] [] [SNode KChoice [x63] no_props [] [] gk]]
+    [SNode KCont [x74] no_props [] []
+       [SUses None [x67] None [mkRefine [[x63]; [x79]; [x71]] [] [] (Some false) None None None []] []];
+     SNode KChoice [x7a] no_props [] [] zk] []) [] [].
+
+Example compile_deterministic_applies :
+  msrel (dms [dcy; lf [x78]] [lf [x62]; lf [x61]]) (dms [lf [x78]; dcy] [lf [x61]; lf [x62]]) /\
+  (exists t, compile_modset 8 (dms [dcy; lf [x78]] [lf [x62]; lf [x61]]) = Ok t /\
+             compile_modset 8 (dms [lf [x78]; dcy] [lf [x61]; lf [x62]]) = Ok t /\
+             ewf_list false [] t = true).
+Proof.
+  split.
+  - split; [|split; constructor]. unfold mrel, dms. cbn. repeat split.
+    + constructor; [|constructor]. apply sp_grouping; [constructor|].
+      constructor; [|constructor]. apply sperm_choice_perm. apply perm_swap.
+    + constructor; [apply sperm_refl|]. constructor; [|constructor].
+      apply sperm_choice_perm. apply perm_swap.
+    + constructor.
+  - eexists. split; [vm_compute; reflexivity|]. split; vm_compute; reflexivity.
+Qed.
+
+Definition compile_deterministic_full_statement : Prop :=
+  forall fuel ms ms', msrel ms ms' -> compile_modset fuel ms' = compile_modset fuel ms.
+
+(** choice z { case a { leaf x; leaf x; }  case b { container c { container d { leaf e; } } } }
+    with fuel 4: the duplicate in [a] is an error, [b] is too deep — whichever comes first wins *)
+Definition cd_dup : stmt := SNode KCase [x61] no_props [] [] [lf [x78]; lf [x78]].
+Definition cd_deep : stmt :=
+  SNode KCase [x62] no_props [] []
+    [SNode KCont [x63] no_props [] [] [SNode KCont [x64] no_props [] [] [lf [x65]]]].
+Definition cd_ms (kids : list stmt) : modset :=
+  mkModset (mkModule [x6d] [x6d] [] [SNode KChoice [x7a] no_props [] [] kids] []) [] [].
+
+Example compile_deterministic_fuel_counterexample :
+  compile_modset 4 (cd_ms [cd_dup; cd_deep]) = Err /\
+  compile_modset 4 (cd_ms [cd_deep; cd_dup]) = OutOfFuel /\
+  compile_modset 6 (cd_ms [cd_dup; cd_deep]) = Err /\
+  compile_modset 6 (cd_ms [cd_deep; cd_dup]) = Err.
+Proof. repeat split; vm_compute; reflexivity. Qed.
+
+Theorem compile_deterministic_full_refuted : ~ compile_deterministic_full_statement.
+Proof.
+  intro H. specialize (H 4 (cd_ms [cd_dup; cd_deep]) (cd_ms [cd_deep; cd_dup])).
+  assert (R : msrel (cd_ms [cd_dup; cd_deep]) (cd_ms [cd_deep; cd_dup])).
+  { split; [|split; constructor]. unfold mrel, cd_ms. cbn. repeat split; try constructor.
+    - apply sperm_choice_perm. apply perm_swap.
+    - constructor. }
+  apply H in R. vm_compute in R. discriminate.
+Qed.
+Print Assumptions compile_deterministic_full_refuted.
+
+(** ** grouping_extract (Schemac/Extract.v): a contiguous block [B] of sibling statements may be
+    moved into a NEW grouping [g] of the same scope and replaced by [uses g] (no when / refine /
+    augment) — the source-text inverse of uses_inline.  Side conditions (decidable, [clean]): no
+    statement in scope — [B], the later siblings [rest], the groupings of the enclosing scopes —
+    already uses a grouping called [g] (no capture).  The folded text needs one more unit of fuel
+    (the uses is one level of nesting); a successful expansion is never changed by more fuel. *)
+From YV Require Import Schemac.Extract.
+
+Theorem expand_fuel_monotone : forall f f' cx acc ss out, f <= f' ->
+  expand f cx acc ss = Ok out -> expand f' cx acc ss = Ok out.
+Proof. exact expand_fuel_mono_le. Qed.
+Print Assumptions expand_fuel_monotone.
+
+Theorem grouping_extract : forall f fr outer m acc g B rest out,
+  clean_scopes g (fr :: outer) -> clean g B = true -> clean g rest = true ->
+  (expand (S f) (mkCtx ((SGrouping g [] B :: fr) :: outer) m) acc (SUses None g None [] [] :: rest)
+     = Ok out ->
+   expand (S f) (mkCtx (fr :: outer) m) acc (B ++ rest) = Ok out) /\
+  (expand (S f) (mkCtx (fr :: outer) m) acc (B ++ rest) = Ok out ->
+   expand (S (S f)) (mkCtx ((SGrouping g [] B :: fr) :: outer) m) acc
+          (SUses None g None [] [] :: rest) = Ok out).
+Proof. exact grouping_extract_proof. Qed.
+Print Assumptions grouping_extract.
+
+(** the two halves it is made of.  (a) In ONE context: a plain uses of a grouping that has no
+    sub-groupings and is declared in the innermost non-empty scope ([ctx_eqv cg cx]) is the
+    grouping's body written in place. *)
+Theorem uses_unfold : forall f cx acc g body cg rest out,
+  find_grouping cx None g = Some (body, cg) -> ctx_eqv cg cx ->
+  expand (S f) cx acc (SUses None g None [] [] :: rest) = Ok out ->
+  expand (S f) cx acc (body ++ rest) = Ok out.
+Proof. exact uses_unfold_proof. Qed.
+Print Assumptions uses_unfold.
+
+Theorem uses_fold : forall f cx acc g body cg rest out,
+  find_grouping cx None g = Some (body, cg) -> ctx_eqv cg cx ->
+  expand (S f) cx acc (body ++ rest) = Ok out ->
+  expand (S (S f)) cx acc (SUses None g None [] [] :: rest) = Ok out.
+Proof. exact uses_fold_proof. Qed.
+Print Assumptions uses_fold.
+
+(** (b) a grouping nobody uses is invisible (every outcome, not only [Ok]) *)
+Theorem unused_grouping_invisible : forall g gg gb f cx cx',
+  ctx_ins g (SGrouping g gg gb) cx cx' ->
+  forall ss acc, clean g ss = true -> expand f cx acc ss = expand f cx' acc ss.
+Proof. exact expand_unused. Qed.
+Print Assumptions unused_grouping_invisible.
+
+(** satisfiable: scope { grouping h { leaf c; } }, block B = { leaf a; uses h; }, rest = { leaf z; },
+    new grouping "g" *)
+Definition ge_h : stmt := SGrouping [x68] [] [lf [x63]].
+Definition ge_B : list stmt := [lf [x61]; SUses None [x68] None [] []].
+Definition ge_rest : list stmt := [lf [x7a]].
+Definition ge_m : modenv := ME [x6d] [ge_h] [].
+
+Example grouping_extract_applies :
+  clean_scopes [x67] [[ge_h]; []] /\ clean [x67] ge_B = true /\ clean [x67] ge_rest = true /\
+  (exists out,
+     expand 3 (mkCtx [[ge_h]; []] ge_m) [] (ge_B ++ ge_rest) = Ok out /\
+     expand 4 (mkCtx [[SGrouping [x67] [] ge_B; ge_h]; []] ge_m) []
+            (SUses None [x67] None [] [] :: ge_rest) = Ok out /\
+     length out = 3).
+Proof.
+  split; [repeat constructor|]. split; [reflexivity|]. split; [reflexivity|].
+  eexists. split; [vm_compute; reflexivity|]. split; vm_compute; reflexivity.
+Qed.
+
+(** ** submodule_merge, boundary case: the module's data definitions come first, then each
+    submodule's in include order (copyOverIncludes appends) — so moving the LAST top-level
+    definition of the module to the FRONT of the first included submodule (or back) changes
+    nothing at all.  (Moving other definitions permutes the top-level order; not covered.) *)
+Theorem submodule_merge_boundary : forall fuel n pfx grps b d augs sn spfx sgrps b1 saugs subs imps,
+  compile_modset fuel
+    (mkModset (mkModule n pfx grps (b ++ [d]) augs) (mkModule sn spfx sgrps b1 saugs :: subs) imps) =
+  compile_modset fuel
+    (mkModset (mkModule n pfx grps b augs) (mkModule sn spfx sgrps (d :: b1) saugs :: subs) imps).
+Proof.
+  intros. unfold compile_modset, expand_modset, top_ctx, modenv_of, top_frame, all_body, all_augs.
+  cbn [ms_main ms_subs ms_imps m_body m_grps m_augs m_prefix flat_map].
+  rewrite <- !app_assoc. reflexivity.
+Qed.
+Print Assumptions submodule_merge_boundary.
+
+(** grouping_extract at module level, through the whole pipeline: a run [B] of top-level data
+    definitions of the main module becomes [uses g] and [grouping g { B }] a new top-level grouping —
+    [compile] is unchanged (one more unit of fuel for the folded text).  [clean]: no statement of
+    the module's groupings (incl. submodules'), data definitions or augments uses a grouping
+    called [g] already. *)
+Theorem grouping_extract_compile : forall f n pfx grps pre B rest augs subs imps g t,
+  let ms  := ge_ms n pfx grps pre B rest augs subs imps in
+  let ms' := ge_ms n pfx (SGrouping g [] B :: grps) pre [SUses None g None [] []] rest augs
+                   subs imps in
+  clean g (top_frame ms) = true -> clean g (all_body ms) = true -> clean g (all_augs ms) = true ->
+  (compile_modset (S f) ms' = Ok t -> compile_modset (S f) ms = Ok t) /\
+  (compile_modset (S f) ms = Ok t -> compile_modset (S (S f)) ms' = Ok t).
+Proof. exact grouping_extract_compile_proof. Qed.
+Print Assumptions grouping_extract_compile.
+
+(** satisfiable: module m { grouping h { leaf c; }  leaf p;  leaf a; uses h;  leaf z; }
+    with B = { leaf a; uses h; } *)
+Example grouping_extract_compile_applies :
+  let ms  := ge_ms [x6d] [x6d] [ge_h] [lf [x70]] ge_B ge_rest [] [] [] in
+  let ms' := ge_ms [x6d] [x6d] [SGrouping [x67] [] ge_B; ge_h] [lf [x70]]
+                   [SUses None [x67] None [] []] ge_rest [] [] [] in
+  clean [x67] (top_frame ms) = true /\ clean [x67] (all_body ms) = true /\
+  clean [x67] (all_augs ms) = true /\
+  (exists t, compile_modset 3 ms = Ok t /\ compile_modset 4 ms' = Ok t /\ length t = 4).
+Proof.
+  cbv zeta. split; [reflexivity|]. split; [reflexivity|]. split; [reflexivity|].
+  eexists. split; [vm_compute; reflexivity|]. split; vm_compute; reflexivity.
+Qed.
+
+(** ** the remaining hypotheses are satisfiable too *)
+Example expand_ewf_relative_applies :   (* under a choice: a case added to one existing case *)
+  (negb true || forallb is_case_stmt [dcy]) = true /\
+  ewf_from 0 true [] [ENode KCase [x78] no_props [] []] = true /\
+  expand 3 ex_cx [ENode KCase [x78] no_props [] []] [dcy] =
+  Ok [ENode KCase [x78] no_props [] []; ENode KCase [x79] no_props [] [ENode KLeaf [x71] no_props [] []]].
+Proof. repeat split; vm_compute; reflexivity. Qed.
+
+Example expand_case_order_applies :
+  let cx := mkCtx [[]] (ME [x6d] [] []) in
+  crel cx cx /\
+  Forall2 sperm [SNode KChoice [x7a] no_props [] [] [lf [x62]; lf [x61]]]
+                [SNode KChoice [x7a] no_props [] [] [lf [x61]; lf [x62]]] /\
+  Forall2 eperm [] [] /\ ewf_list false [] [] = true /\
+  exists out, expand 4 cx [] [SNode KChoice [x7a] no_props [] [] [lf [x62]; lf [x61]]] = Ok out /\
+              length out = 1.
+Proof.
+  cbv zeta. split; [split; cbn; repeat constructor|].
+  split; [constructor; [apply sperm_choice_perm; apply perm_swap|constructor]|].
+  split; [constructor|]. split; [reflexivity|].
+  eexists. split; vm_compute; reflexivity.
+Qed.
+
+Example uses_unfold_applies :
+  let cx := mkCtx [[SGrouping [x67] [] ge_B; ge_h]; []] ge_m in
+  let cg := mkCtx [[]; [SGrouping [x67] [] ge_B; ge_h]; []] ge_m in
+  find_grouping cx None [x67] = Some (ge_B, cg) /\ ctx_eqv cg cx /\
+  (exists out, expand 4 cx [] (SUses None [x67] None [] [] :: ge_rest) = Ok out /\
+               expand 4 cx [] (ge_B ++ ge_rest) = Ok out).
+Proof.
+  cbv zeta. split; [reflexivity|]. split; [split; reflexivity|].
+  eexists. split; vm_compute; reflexivity.
+Qed.
+
+Example unused_grouping_invisible_applies :
+  ctx_ins [x67] (SGrouping [x67] [] ge_B) (mkCtx [[ge_h]; []] ge_m)
+          (mkCtx [[SGrouping [x67] [] ge_B; ge_h]; []] ge_m) /\
+  clean [x67] (ge_B ++ ge_rest) = true.
+Proof.
+  split; [|reflexivity]. split; [split; reflexivity|]. split; [constructor|repeat constructor].
+Qed.
